@@ -217,3 +217,46 @@ def repro_snippet(case):
         f"outputtype=prtpy.out.{case.get('out', 'PartitionAndSumsTuple')}"
         + ("".join(", " + k for k in kw)) + "))\n"
     )
+
+
+# --------------------------------------------------------------------------- solver seam (C02 / C17)
+
+class _MipShim:
+    """Stands in for the `mip` module inside prtpy's integer_programming namespace; everything is
+    forwarded to the real module except Model, which is wrapped."""
+    def __init__(self, real, model_factory):
+        self._real = real
+        self.Model = model_factory
+
+    def __getattr__(self, name):
+        return getattr(self._real, name)
+
+
+def with_mip_model(model_factory, fn):
+    real = ilp_mod.mip
+    ilp_mod.mip = _MipShim(real, model_factory)
+    try:
+        return fn()
+    finally:
+        ilp_mod.mip = real
+
+
+def call_ilp_no_preprocess(case):
+    import mip
+
+    def factory(*a, **k):
+        m = mip.Model(*a, **k)
+        m.preprocess = 0
+        return m
+    return with_mip_model(factory, lambda: call(case))
+
+
+def call_ilp_forced_status(case, status):
+    """Fault injection: the real solve happens, then `optimize` answers `status`."""
+    import mip
+
+    class M(mip.Model):
+        def optimize(self, *a, **k):
+            super().optimize(*a, **k)
+            return status
+    return with_mip_model(M, lambda: call(case))
